@@ -285,6 +285,127 @@ mod harnesses {
         assert!(!a.is_subset(&b));
     }
 
+    /// a key type whose equal instances are distinguishable: Eq/Hash look at `id` only
+    #[derive(Clone, Copy, Debug)]
+    pub struct Tagged { pub id: u8, pub tag: u8 }
+    impl PartialEq for Tagged { fn eq(&self, o: &Self) -> bool { self.id == o.id } }
+    impl Eq for Tagged {}
+    impl core::hash::Hash for Tagged { fn hash<H: Hasher>(&self, h: &mut H) { h.write_u8(self.id) } }
+
+    /// C12: OccupiedEntry::key / Entry::key report the STORED key, not the key used for the lookup
+    #[kani::proof]
+    #[kani::unwind(6)]
+    fn entry_key_is_stored_key() {
+        let mut m: HashMap<Tagged, u8, Seeded> = HashMap::with_hasher(Seeded(0));
+        let t: u8 = kani::any();
+        m.insert(Tagged { id: 7, tag: 1 }, 0);
+        let e = m.entry(Tagged { id: 7, tag: t });
+        assert!(e.key().tag == 1);
+        if let griddle::hash_map::Entry::Occupied(o) = e {
+            assert!(o.key().tag == 1);
+            assert!(o.remove_entry().0.tag == 1);
+        } else {
+            panic!("present key reported vacant");
+        }
+    }
+
+    /// C01: insert on a present key (in the old table) replaces the value and never the stored key
+    #[kani::proof]
+    #[kani::unwind(10)]
+    fn insert_keeps_stored_key_split() {
+        let mut m: HashMap<Tagged, u8, Seeded> = HashMap::with_hasher(Seeded(0));
+        let mut i = 0u8;
+        while i < 8 {
+            m.insert(Tagged { id: i, tag: 1 }, i);
+            i += 1;
+        }
+        assert!(m.verif_state().old.is_some());
+        let k: u8 = kani::any();
+        kani::assume(k < 8);
+        assert!(m.insert(Tagged { id: k, tag: 2 }, 99) == Some(k));
+        let (sk, sv) = m.get_key_value(&Tagged { id: k, tag: 3 }).unwrap();
+        assert!(sk.tag == 1 && *sv == 99);
+        assert!(m.len() == 8);
+    }
+
+    /// C01/C06/C12: entry(absent).insert(v).replace_entry_with(|_,_| None) removes the element and yields a vacant entry
+    #[kani::proof]
+    #[kani::unwind(6)]
+    fn entry_insert_replace_none() {
+        let mut m = Map::with_hasher(Seeded(0));
+        m.insert(1, 1);
+        let k: u8 = kani::any();
+        kani::assume(k == 2 || k == 9);
+        let e = m.entry(k).insert(5);
+        match e.replace_entry_with(|_, _| None) {
+            griddle::hash_map::Entry::Vacant(v) => { assert!(*v.key() == k); }
+            griddle::hash_map::Entry::Occupied(_) => panic!("still occupied after the closure returned None"),
+        }
+        assert!(m.len() == 1 && m.get(&k).is_none() && m.get(&1) == Some(&1));
+    }
+
+    /// C09: dropping a drain_filter early still removes every remaining matching element (values with drop glue)
+    static mut GONE: u8 = 0;
+    struct Glue(u8);
+    impl Drop for Glue { fn drop(&mut self) { unsafe { GONE += 1; } } }
+    #[kani::proof]
+    #[kani::unwind(8)]
+    fn drainf_early_drop_glue() {
+        let mut m: HashMap<u8, Glue, Seeded> = HashMap::with_hasher(Seeded(0));
+        let mut i = 0u8;
+        while i < 5 {
+            m.insert(i, Glue(i));
+            i += 1;
+        }
+        let take: u8 = kani::any();
+        kani::assume(take <= 1);
+        {
+            let mut d = m.drain_filter(|k, _| *k != 0);
+            if take == 1 {
+                assert!(d.next().is_some());
+            }
+        } // dropped early
+        assert!(m.len() == 1);
+        assert!(m.contains_key(&0));
+        unsafe { assert!(GONE == 4); }
+    }
+
+    /// C14/C13: set equality is false for a proper subset, both ways
+    #[kani::proof]
+    #[kani::unwind(8)]
+    fn set_eq_proper_subset() {
+        let mut a = Set::with_hasher(Seeded(0));
+        let mut b = Set::with_hasher(Seeded(0));
+        let k: u8 = kani::any();
+        kani::assume(k == 3 || k == 9);
+        a.insert(1);
+        a.insert(2);
+        b.insert(1);
+        b.insert(2);
+        b.insert(k);
+        assert!(a != b);
+        assert!(b != a);
+        b.remove(&k);
+        assert!(a == b && b == a);
+    }
+
+    /// C08/C01: collect() and extend() keep one entry per key when the input repeats a key
+    #[kani::proof]
+    #[kani::unwind(8)]
+    fn from_iter_and_extend_duplicate_keys() {
+        let k: u8 = kani::any();
+        kani::assume(k == 1 || k == 2);
+        let m: Map = [(1u8, 10u8), (2, 20), (k, 30)].iter().cloned().collect();
+        assert!(m.len() == 2);
+        assert!(m.iter().count() == 2);
+        assert!(m.get(&k) == Some(&30));
+        let mut n = Map::with_capacity_and_hasher(8, Seeded(0));
+        n.insert(5, 5);
+        n.clear();
+        n.extend([(1u8, 10u8), (k, 30), (2, 20)].iter().cloned());
+        assert!(n.len() == 2 && n.iter().count() == 2);
+    }
+
     /// C06: every value is dropped exactly once (static ledger), across a move between tables and a removal
     static mut LIVE: [u8; 16] = [0; 16];
     struct Tracked(u8);
